@@ -3,6 +3,8 @@
 package queue
 
 import (
+	"time"
+	"reflect"
 	"context"
 	"fmt"
 	"sort"
@@ -21,6 +23,10 @@ type c15scenario struct {
 	items  [][]uint64
 	want   int
 	cancel bool
+	// prePop: the consumer first calls Pop this many times (taking what is there, without blocking)
+	// and only then waits; such scenarios mix the two ways of taking an item and are decided by the
+	// oracle alone (the LTS of the model has no Pop step)
+	prePop int
 }
 
 func (s c15scenario) coq() string {
@@ -77,6 +83,11 @@ func c15run(sc c15scenario, prefix []string) (res c15result, choices [][]string,
 	var got []string
 	var gotOK []uint64
 	ctl.Spawn("0", func() string {
+		for i := 0; i < sc.prePop; i++ {
+			if it, ok := q.Pop(); ok {
+				gotOK = append(gotOK, uint64(it))
+			}
+		}
 		for i := 0; i < sc.want; i++ {
 			it, ok := q.WaitForItem(ctx)
 			if !ok {
@@ -157,11 +168,25 @@ func c15run(sc c15scenario, prefix []string) (res c15result, choices [][]string,
 			prodDone = false
 		}
 	}
-	q.mu.Lock()
-	for e := q.list.Front(); e != nil; e = e.Next() {
-		res.finalQ = append(res.finalQ, uint64(e.Value.(c15item)))
+	// what is still queued, read through the public API (Pop) so that the harness builds whatever the
+	// queue keeps its items in; a parked thread may hold the queue's mutex at the end of a run, so the
+	// read is given a moment and abandoned otherwise
+	drained := make(chan []uint64, 1)
+	go func() {
+		var xs []uint64
+		for {
+			it, ok := q.Pop()
+			if !ok {
+				break
+			}
+			xs = append(xs, uint64(it))
+		}
+		drained <- xs
+	}()
+	select {
+	case res.finalQ = <-drained:
+	case <-time.After(500 * time.Millisecond):
 	}
-	q.mu.Unlock()
 	cancelled := ctx.Err() != nil
 	if consumerBlocked && len(res.finalQ) > 0 && prodDone && !cancelled {
 		res.stuck = true
@@ -207,6 +232,12 @@ func c15emit(out *vharness.Out, kind string, sc c15scenario, r c15result, capaci
 		note = fmt.Sprintf("delivered %v + queued %v != pushed %v", r.gotOK, r.finalQ, r.pushSeq)
 	}
 	coq := fmt.Sprintf("CSched %d %s %s %s %s %s", capacity, sc.coq(), vharness.Ns(r.sched), vharness.List(obs), vharness.List(r.got), vharness.Ns(r.finalQ))
+	if sc.prePop > 0 {
+		key := fmt.Sprintf("prepop|%v|%v", sc, r.sched)
+		out.Emit(vharness.Case{Kind: kind + "-pop-then-wait", Key: key, Nontrivial: true, OracleOK: ok, Note: note, Sig: sig,
+			Replay: map[string]any{"scenario": sc, "schedule": r.sched}})
+		return
+	}
 	preempt := false
 	for i := 1; i < len(r.sched); i++ {
 		if r.sched[i] != r.sched[i-1] {
@@ -254,7 +285,12 @@ func c15explore(out *vharness.Out, sc c15scenario, capacity int, max int) (n int
 
 func c15capacity() int {
 	q := NewSimpleQueue[c15item]("v", &noopTracer[c15item]{})
-	return cap(q.signal)
+	// by reflection: the harness must still build when the field is renamed or retyped
+	f := reflect.ValueOf(q).Elem().FieldByName("signal")
+	if !f.IsValid() || f.Kind() != reflect.Chan {
+		return -1
+	}
+	return f.Cap()
 }
 
 func TestVerifC15(t *testing.T) {
@@ -273,6 +309,10 @@ func TestVerifC15(t *testing.T) {
 		{items: [][]uint64{{1}, {2}}, want: 2, cancel: true},
 		{items: [][]uint64{{1, 2, 3}}, want: 3},
 		{items: [][]uint64{{1, 2}, {3}}, want: 3},
+		{items: [][]uint64{{1, 2}}, want: 1, prePop: 1},
+		{items: [][]uint64{{1}, {2}}, want: 1, prePop: 1},
+		{items: [][]uint64{{1, 2, 3}}, want: 2, prePop: 1},
+		{items: [][]uint64{{1, 2, 3}}, want: 1, prePop: 2},
 	}
 	total := 0
 	for _, sc := range scenarios {
